@@ -42,7 +42,7 @@ func (e *Engine) computeGlobalInits() {
 			x.inInit = true
 			tb := x.tb
 			st := &State{pc: tb.True(), cells: map[*ssa.Alloc]Value{}, heap: &Heap{m: map[string]*Term{}, A: tb.IntC(1000)}, ghost: map[string]*Term{}}
-			fr := &Frame{fn: initFn, regs: map[ssa.Value]Value{}}
+			fr := &Frame{fn: initFn}
 			fr.entry = st.Clone()
 			rets := x.run(fr, st)
 			if len(rets) == 0 {
